@@ -102,6 +102,14 @@ func (m *Model) locOf(addr ssa.Value, state map[loc]defset) (loc, bool) {
 	case *ssa.FreeVar:
 		return loc{x, -1}, true
 	case *ssa.FieldAddr:
+		// a field of a struct-valued field (embedded or named): one location per leaf
+		if inner, ok := stripConv(x.X).(*ssa.FieldAddr); ok {
+			if f := fieldOf(inner); f != nil && sameNamedPkg(f) {
+				if _, isStruct := f.Type().Underlying().(*types.Struct); isStruct {
+					return loc{m.objOf(inner.X, state), nestIdx(inner.Field, x.Field)}, true
+				}
+			}
+		}
 		return loc{m.objOf(x.X, state), x.Field}, true
 	}
 	return loc{}, false
@@ -1100,7 +1108,7 @@ func (m *Model) writeUnits(e *termEval) []*writeUnit {
 						wu.Cols[col] = colSrc{Kind: "bound", Term: &Term{Kind: "opaque", Name: "unbound-parameter"}, Expr: ex}
 					} else {
 						bfr := fr
-						if cs.Helper != nil && b.Fr != nil && b.Fr.caller != nil {
+						if b.Fr != nil && b.Fr.caller != nil {
 							// a value inside the statement helper (or its argument packer): its own frame,
 							// hung under this calling context
 							bfr = rerootFrame(b.Fr, fr)
@@ -1180,13 +1188,13 @@ func (m *Model) eventAtReturns(e *termEval, K *ssa.Function) (map[*types.Var]*Te
 		for _, obj := range objs {
 			nilOnly = false
 			nEv++
-			for i := 0; i < st.NumFields(); i++ {
-				l := loc{obj, i}
+			for _, ff := range flatFields(st) {
+				l := loc{obj, ff.idx}
 				ds, have := state[l]
 				if !have {
 					ds = defset{entryDef}
 				}
-				fields[st.Field(i)] = append(fields[st.Field(i)], e.defsTerm(l, ds, ret, kfr))
+				fields[ff.v] = append(fields[ff.v], e.defsTerm(l, ds, ret, kfr))
 			}
 		}
 	}
